@@ -198,13 +198,24 @@ func VerifC17_NewReplicaSetIsCreatedWithinPartitionAndSurge() {
 		return
 	}
 	newSize := *written[0].Spec.Replicas
-	limit := deploymentutil.NewRSReplicasLimit(part, d)
-	lower := deploymentutil.NewRSReplicasLowerBound(d, &strategy)
-	// (the controller keeps at least the lower bound — one pod unless the Deployment has none — so that the native
-	// controller does not fight it; that single pod is the only excess the limits admit)
+	// an integer partition is the number of new-revision pods the step allows, capped by the Deployment's size
+	limit := part.IntVal
+	if limit > R {
+		limit = R
+	}
+	// (the controller keeps at least one pod in the new ReplicaSet when there is no surge, so that the native controller
+	// does not fight it; that single pod is the only excess the limits admit — stated here, not taken from the helper
+	// that computes it)
+	lower := int32(1)
 	verifrt.Assert(newSize <= limit || newSize <= lower, "C17.create.withinThePartition")
 	verifrt.Assert(oldSize+newSize <= R+ms.IntVal || newSize <= lower, "C17.create.withinReplicasPlusSurge")
 	verifrt.Assert(written[0].Spec.Template.Labels["ver"] == "v2", "C17.create.carriesTheNewTemplate")
+}
+
+// C01: the new ReplicaSet of a partition-style Deployment comes into being within what the current step allows (the
+// partition), one pod at most beyond it — the same creation relation, under the exposure property.
+func VerifC01_NewReplicaSetIsCreatedWithinThePartition() {
+	VerifC17_NewReplicaSetIsCreatedWithinPartitionAndSurge()
 }
 
 // VerifC17_ScalingEventMeansSpecReplicasChanged: every sync first asks "is this a scaling event?" and hands a yes to
